@@ -5,6 +5,7 @@
 * known_replays/*.json  — one committed example per known finding: the case must still fail with
   exactly its recorded kind on the current tree (if it stops failing, the finding was repaired and the
   `known:` line in KNOWN_FINDINGS.txt should become a `fixed:` line).
+* fixed_replays/*.json  — the failing case of a defect repaired by a `fix:` commit in /repo: must pass now.
 * replays/<ID>/*.json   — whatever the last runs of the checks wrote (git-ignored): each is re-executed
   and must reproduce its recorded kind (a replay that no longer fails is reported as such).
 """
@@ -39,3 +40,10 @@ def test_known_finding_still_reproduces(path):
 def test_recorded_violation_reproduces(path):
     rec, kinds = _replay(path)
     assert rec["kind"] in kinds, "recorded violation %s does not reproduce" % rec["kind"]
+
+
+@pytest.mark.parametrize("path", sorted(glob.glob(os.path.join(HERE, "fixed_replays", "*.json"))))
+def test_repaired_defect_stays_repaired(path):
+    """fixed_replays/*.json — the failing case of a defect repaired by a `fix:` commit: it must pass now."""
+    rec, kinds = _replay(path)
+    assert rec["kind"] not in kinds, "repaired defect %s is back" % rec["kind"]
